@@ -1,8 +1,23 @@
 #!/bin/bash
-# Offline setup: pre-builds the BX crate (real stun-types/stun-proto as path dependencies) and warms Verus.
-set -e
+# Offline setup: pre-builds the BX crate (real stun-types/stun-proto as path dependencies), cross-checks the BX reference
+# crypto against python hashlib/zlib, warms the Verus cache.  Every check rebuilds what it needs anyway.
 cd "$(dirname "$0")"
 export CARGO_NET_OFFLINE=true
 mkdir -p build evidence replays
-(cd bx && CARGO_TARGET_DIR=../build/bx-target cargo build --offline --bins 2>&1 | tail -2) || true
+(cd bx && CARGO_TARGET_DIR=../build/bx-target cargo build --offline --bins 2>&1 | tail -2)
+if [ -x build/bx-target/debug/bx ]; then
+python3 - <<'PY'
+import hashlib, hmac, zlib, subprocess
+out = subprocess.check_output(['build/bx-target/debug/bx', 'selftest']).decode().split('\n')
+ok = out[0].strip() == 'selftest ok'
+for l in out[1:]:
+    f = l.split()
+    if not f: continue
+    n = int(f[0]); d = bytes((i * 7 + 3) & 0xff for i in range(n))
+    want = [hashlib.md5(d).hexdigest(), hashlib.sha1(d).hexdigest(), hashlib.sha256(d).hexdigest(), '%08x' % zlib.crc32(d),
+            hmac.new(b'key', d, 'sha1').hexdigest(), hmac.new(d, d, 'sha256').hexdigest()]
+    ok = ok and f[1:] == want
+print('bx reference crypto vs python hashlib/zlib:', 'ok' if ok else 'MISMATCH')
+PY
+fi
 echo "setup done"
